@@ -140,6 +140,8 @@ def _on_path(h):
 def _job(args):
     hname, prefix, max_paths, max_seconds = args
     h = _H[hname]
+    from . import world
+    core.RESET_HOOK[0] = world.restore_state
     try:
         res = core.explore_job(lambda ctx: h.sym(ctx, h.cfg), prefix, max_paths, max_seconds, _on_path(h))
         res["harness"] = hname
